@@ -527,4 +527,4 @@ register(Unit(P, "WRITABLE/MetadataManager.commit-local", _cp.h_mm_commit("local
 from contracts import helpers as _H  # noqa: E402
 # NAME-RT (parse(name_for(v)) == (v, name) for all v) was attempted (contracts/helpers.py h_name_roundtrip): z3 and cvc5 both answer
 # unknown within 60 s per path (IntToStr / regex group / StrToInt chains) - it stays the BOUNDED stand-in _bounded_parse above.
-_H.register_under(P, ["HELPER/metadata-file-io"], replay=_replay_parse)
+_H.register_under(P, ["HELPER/metadata-file-io", "NAME/_new_metadata_filename"], replay=_replay_parse)
